@@ -14,7 +14,9 @@ rundemo() {
     rm -rf $SC-demo; cp -r $DEMO $SC-demo; sed -i "s#=> /tmp/wt-[A-Za-z0-9-]*#=> $SC#" $SC-demo/go.mod; cp $SC/go.sum $SC-demo/go.sum
     if ls $SC-demo/*_test.go >/dev/null 2>&1; then (cd $SC-demo && timeout 600 go test -count=1 ./... > /tmp/confirm.demo.log 2>&1); else (cd $SC-demo && timeout 600 go run . > /tmp/confirm.demo.log 2>&1); fi
   else
-    cp $DEMO/*_test.go $SC/; (cd $SC && timeout 600 go test -vet=off -count=1 . > /tmp/confirm.demo.log 2>&1); rc=$?; for f in $DEMO/*_test.go; do rm -f $SC/$(basename $f); done; return $rc
+    # a demo in package tests belongs to the tests/ module of the repository, any other to its root package
+    sub=.; if grep -q '^package tests' $DEMO/*_test.go; then sub=tests; fi
+    cp $DEMO/*_test.go $SC/$sub/; (cd $SC/$sub && timeout 600 go test -vet=off -count=1 -run "$(grep -ho '^func Test[A-Za-z0-9_]*' $DEMO/*_test.go | sed 's/func //' | paste -sd'|')" . > /tmp/confirm.demo.log 2>&1); rc=$?; for f in $DEMO/*_test.go; do rm -f $SC/$sub/$(basename $f); done; return $rc
   fi
 }
 rundemo; with=$?
